@@ -193,6 +193,11 @@ def judge(run, recs, items_by_label, cover=None):
       cover.setdefault("unknown", {}).setdefault(nm, recs[c["i"] - 1]["label"])
     if c["spurious"]:
       cover["spurious"] = cover.get("spurious", 0) + c["spurious"]
+    for g, j in c["silent"]:
+      it = items_by_label[recs[c["i"] - 1]["label"]]
+      cover.setdefault("silent", []).append("%s [%s]" % (it["group"][g - 1]["calls"][j - 1]["expr"],
+                                                         " / ".join(it["src"].split("\n")[:2]) if len(it["group"]) == 1 else
+                                                         json.dumps(it["group"][g - 1]["c"], sort_keys=True)))
   for c in tlc.parse_cases(res.out, "BAD"):
     r = recs[c["i"] - 1]
     fails = sorted(c["fails"])
@@ -213,6 +218,7 @@ def judge(run, recs, items_by_label, cover=None):
         key += ":" + c["attr"]           # Outcome!Attribution (spec-computed, from oracle-side facts)
     run.violation(key, what, {"label": r["label"], "mode": r["mode"], "src": src, "fails": fails,
                               "opts": items_by_label[r["label"]].get("opts") or {},
+                              "deps": (items_by_label[r["label"]].get("plan") or {}).get("deps") or [],
                               "record": {k: v for k, v in r.items() if k != "tb"}, "tb": r.get("tb", "")})
     run.add("bad_runs")
   return nv
@@ -446,22 +452,25 @@ def _callplan(**kw):
 
 _CALLPLAN = _callplan()
 _RUN_OK = _MAIN + [("Run", "ok")] + _TAIL
-# synthetic runs of the planned families with the COVER line the spec must print: (case, hit, unknown, spurious)
+# synthetic runs of the planned families with the COVER line the spec must print:
+# (case, hit, unknown, spurious, silent = [callable index, call index] of faulty calls with nothing on their line)
 COVER_CASES = [
     # f() misses both, f(1,'s') binds, f(1,'s',None,self='s') has too many and a duplicate, f(1, zz=1) unknown + missing
     (_case(_RUN_OK, nlines=7, plan=_CALLPLAN, errs=[("missing-parameter", 3), ("wrong-arg-count", 5), ("wrong-keyword-args", 6)]),
-     ["missing-parameter", "wrong-arg-count", "wrong-keyword-args"], [], 0),
+     ["missing-parameter", "wrong-arg-count", "wrong-keyword-args"], [], 0, [[1, 1]]),
     (_case(_RUN_OK, nlines=7, plan=_CALLPLAN, errs=[("duplicate-keyword-argument", 5), ("missing-parameter", 6)]),
-     ["duplicate-keyword-argument", "missing-parameter"], [], 0),
-    (_case(_RUN_OK, nlines=7, plan=_CALLPLAN, errs=[("missing-parameter", 4)]), [], [], 1),       # the well-bound call blamed
-    (_case(_RUN_OK, nlines=7, plan=_CALLPLAN, errs=[("wrong-arg-count", 3)]), [], [], 0),          # not the expected class
+     ["duplicate-keyword-argument", "missing-parameter"], [], 0, [[1, 1], [2, 1]]),
+    (_case(_RUN_OK, nlines=7, plan=_CALLPLAN, errs=[("missing-parameter", 4)]), [], [], 1,
+     [[1, 1], [2, 1], [2, 3], [2, 4]]),                                                             # the well-bound call blamed
+    (_case(_RUN_OK, nlines=7, plan=_CALLPLAN, errs=[("wrong-arg-count", 3)]), [], [], 0,
+     [[1, 1], [2, 3], [2, 4]]),                                                                     # not the expected class
     (_case(_RUN_OK, nlines=7, plan=_callplan(ann=True), errs=[("wrong-arg-types", 4), ("not-callable", 1)]),
-     ["not-callable", "wrong-arg-types"], [], 0),                                                                   # b: int gets 's'
+     ["not-callable", "wrong-arg-types"], [], 0, [[2, 1], [2, 3], [2, 4]]),                          # b: int gets 's'
     (_case(_RUN_OK, nlines=7, plan=_callplan(kind="method"), errs=[("missing-parameter", 3), ("wrong-arg-count", 4)]),
-     ["missing-parameter", "wrong-arg-count"], [], 0),                                              # the receiver is bound first
-    (_case(_RUN_OK, plan={"fam": "provoke", "want": "bad-slots"}, errs=[("bad-slots", 2)]), ["bad-slots"], [], 0),
-    (_case(_RUN_OK, plan={"fam": "provoke", "want": "bad-slots"}, errs=[("name-error", 2)]), None, [], 0),
-    (_case(_RUN_OK, errs=[("brand-new-error", 2)]), [], ["brand-new-error"], 0),
+     ["missing-parameter", "wrong-arg-count"], [], 0, [[1, 1], [2, 3], [2, 4]]),                     # the receiver is bound first
+    (_case(_RUN_OK, plan={"fam": "provoke", "want": "bad-slots"}, errs=[("bad-slots", 2)]), ["bad-slots"], [], 0, []),
+    (_case(_RUN_OK, plan={"fam": "provoke", "want": "bad-slots"}, errs=[("name-error", 2)]), [], [], 0, []),
+    (_case(_RUN_OK, errs=[("brand-new-error", 2)]), [], ["brand-new-error"], 0, []),
 ]
 
 
@@ -478,15 +487,15 @@ def spec_selftest():
       common.require(got[k]["attr"] == t[2], "Outcome!Attribution self-test case %d: expected %r, TLC says %r"
                      % (k, t[2], got[k]["attr"]))
   cov = {c["i"]: c for c in tlc.parse_cases(res.out, "COVER")}
-  for k, (_, hit, unknown, spurious) in enumerate(COVER_CASES, len(SPEC_CASES) + 1):
+  for k, (_, hit, unknown, spurious, silent) in enumerate(COVER_CASES, len(SPEC_CASES) + 1):
     c = cov.get(k)
-    if hit is None or (not hit and not unknown and not spurious):
+    if not hit and not unknown and not spurious and not silent:
       common.require(c is None, "TraceC15 COVER self-test case %d: expected no line, TLC says %s" % (k, c))
       continue
     common.require(c is not None and sorted(c["hit"]) == sorted(hit) and sorted(c["unknown"]) == sorted(unknown)
-                   and c["spurious"] == spurious,
-                   "TraceC15 COVER self-test case %d: expected hit=%s unknown=%s spurious=%d, TLC says %s"
-                   % (k, hit, unknown, spurious, c))
+                   and c["spurious"] == spurious and sorted(c["silent"]) == silent,
+                   "TraceC15 COVER self-test case %d: expected hit=%s unknown=%s spurious=%d silent=%s, TLC says %s"
+                   % (k, hit, unknown, spurious, silent, c))
   return len(allc)
 
 
@@ -542,8 +551,14 @@ def main():
     with open(a.replay) as f:
       case = json.load(f)["case"]
     items = [{"label": case["label"], "src": case["src"], "mode": case.get("mode", "infer"), "family": "replay",
-              "opts": case.get("opts") or {}}]
-    recs = TimedPool(1).map(items, lambda it: cap_file)
+              "opts": dict(case.get("opts") or {})}]
+    deps_dir = os.path.join(tlc.BUILD, "c15_pyi_%d" % os.getpid())
+    if case.get("deps"):          # the stub files a provoking text imports
+      items[0]["opts"]["pythonpath"] = c15_fam.write_deps(deps_dir, [{"deps": case["deps"]}])
+    try:
+      recs = TimedPool(1).map(items, lambda it: cap_file)
+    finally:
+      shutil.rmtree(deps_dir, ignore_errors=True)
     recs = [r for r in recs if "events" in r]
     n = judge(run, recs, {it["label"]: it for it in items})
     run.put("evaluations", max(1, n)); run.put("distinct_nontrivial", 2)
@@ -723,7 +738,7 @@ def main():
           "runs_with_subruns": 200 if thorough else 20, "subruns_compile_error_caught": 1,
           # the strengthened families
           "inputs_call": 400 if thorough else 25, "inputs_provoke": 100 if thorough else 55,
-          "inputs_compose": 4000 if thorough else 240, "inputs_exo": 1000 if thorough else 30,
+          "inputs_compose": 4000 if thorough else 240, "inputs_exo": 1000 if thorough else 20,
           "failed_calls": 60000 if thorough else 3000, "failed_calls_reported": 50000 if thorough else 2500,
           "failed_calls_empty_arglist": 1000 if thorough else 60,
           "failed_calls_empty_arglist_self_or_cls_function": 100 if thorough else 8,
@@ -757,6 +772,9 @@ def main():
     common.require(not vac, "vacuity: " + "; ".join(vac))
   for nm, lab in sorted(cover.get("unknown", {}).items()):
     run.diverge("an error class outside the pinned catalogue (Outcome!ErrorClasses) was reported: %s on %s" % (nm, lab))
+  run.put("calls_with_fault_and_no_report", len(cover.get("silent", [])))
+  for x in cover.get("silent", [])[:8]:
+    run.diverge("a call with a binding fault got no report on its line (C13's subject, not judged here): " + x)
   if cover.get("spurious"):
     run.diverge("%d calls the binding rules accept got a binding error (C13's subject, not judged here)" % cover["spurious"])
   run.assumptions += [
